@@ -8,6 +8,7 @@ for generated option sequences x reference sets x gitconfig refgroups vs the
 model's top_filter; option sequences of length <= 3 over a small pool are
 enumerated exhaustively."""
 import itertools
+import json
 import random
 import re as pyre
 
@@ -95,6 +96,18 @@ def run(ctx):
                 diff = {k.decode("latin1"): (want.get(k), r["marks"].get(k)) for k in set(want) | set(r["marks"]) if want.get(k) != r["marks"].get(k)}
                 res.violations.append(vlib.Violation("--show-refs marks differ from the last-matching-rule semantics", inp,
                                                      expected={k: v[0] for k, v in diff.items()}, observed={k: v[1] for k, v in diff.items()}))
+            # what is traversed is what is selected: several references share each commit, so the commit count tells from
+            # which references the walk really started (a reference marked '+' that is then not walked shows here only)
+            started = {r["ref_commit"][n] for n, w in want.items() if w}
+            if r["root_commit"] is not None:
+                started.add(r["root_commit"])
+            try:
+                got = json.loads(r["out"])["unique_commit_count"]
+            except Exception:
+                got = None
+            if got != len(started):
+                res.violations.append(vlib.Violation("the commits traversed are not those the selected references (and ROOTs) point at", inp,
+                                                     expected={"unique_commit_count": len(started)}, observed={"unique_commit_count": got}))
 
         for it in range(150 if quick else 2500):
             refs = RC.gen_refs(rng)
